@@ -59,7 +59,7 @@ def GoodEndC (ce : CEnd) : Prop :=
   ce.e.tag = .normal → ∀ h, ce.e.out = .halt h → ∀ I : Interp, I.Std → H I → ∀ f0, RelC I p S w0 cs0 w0 f0 [] →
     Sat I ce.e.st.path →
       ∃ w', Halts p w0 f0 (w', haltWith h (ce.e.data.map (·.eval I))) ∧
-        WRelM I S w0 w' (stoOf ce.stores) (evalLogs I ce.logs) (balSem I w0 ce.bal)
+        WRelM I S (wd w0 ce.created ce.nonce) w' (stoOf ce.stores) (evalLogs I ce.logs) (balSem I w0 ce.bal)
 
 end
 
@@ -75,24 +75,24 @@ theorem stepC_good (hs : SimpSound s) (hmem : cfg.maxMem + 32 ≤ p.memLimit) (h
     (hcb : ∀ a prog, codeOf codes a = some prog → ∀ b ∈ prog, b < 256)
     (hob : cfg.balances = true → OracleSound o)
     (hH : ∀ I, H I → (cfg.balances = true → BalHyp I cfg w0) ∧ (cfg.sha3 = true → ShaInterp I p cfg))
-    (hnc : cfg.create = false) {cs : CState}
+    (hch : CreateHyp cfg p S w0) {cs : CState}
     (hg : GoodC p S w0 cs0 H cs) :
     (∀ cs' ∈ (stepC s o cfg codes cs).next, GoodC p S w0 cs0 H cs') ∧
     (∀ ce ∈ (stepC s o cfg codes cs).ends, GoodEndC p S w0 cs0 H ce) := by
   refine ⟨?_, ?_⟩
   · intro cs' hm I hI hHI f0 h0 hsat'
-    obtain ⟨ext, hp⟩ := stepC_next_path hnc hm
+    obtain ⟨ext, hp⟩ := stepC_next_path hch.cp hm
     have hsat : Sat I cs.st.path := by rw [hp] at hsat'; exact (sat_append.1 hsat').1
     obtain ⟨w, f, kcs, hrel, hback⟩ := hg I hI hHI f0 h0 hsat
     obtain ⟨w', f', kcs', hrel', hb'⟩ :=
-      (stepC_sound (o := o) hs hI hmem hdep hcodes hS hcb (fun hbal => ⟨hob hbal, (hH I hHI).1 hbal⟩) (hH I hHI).2 hnc hrel hsat).1 cs' hm
+      (stepC_sound (o := o) hs hI hmem hdep hcodes hS hcb (fun hbal => ⟨hob hbal, (hH I hHI).1 hbal⟩) (hH I hHI).2 hch hrel hsat).1 cs' hm
         hsat'
     exact ⟨w', f', kcs', hrel', fun r hr => hback r (hb' r hr)⟩
   · intro ce hm htag h hout I hI hHI f0 h0 hsat'
-    have hsat : Sat I cs.st.path := by rw [← stepC_end_path hnc hm]; exact hsat'
+    have hsat : Sat I cs.st.path := by rw [← stepC_end_path hch.cp hm]; exact hsat'
     obtain ⟨w, f, kcs, hrel, hback⟩ := hg I hI hHI f0 h0 hsat
     obtain ⟨w', hrun, hW⟩ := (stepC_sound (o := o) hs hI hmem hdep hcodes hS hcb
-      (fun hbal => ⟨hob hbal, (hH I hHI).1 hbal⟩) (hH I hHI).2 hnc hrel hsat).2 ce hm htag h hout
+      (fun hbal => ⟨hob hbal, (hH I hHI).1 hbal⟩) (hH I hHI).2 hch hrel hsat).2 ce hm htag h hout
     exact ⟨w', hback _ hrun, hW⟩
 
 /-- **exploreC_sound.** -/
@@ -101,7 +101,7 @@ theorem exploreC_sound (hs : SimpSound s) (hmem : cfg.maxMem + 32 ≤ p.memLimit
     (hcb : ∀ a prog, codeOf codes a = some prog → ∀ b ∈ prog, b < 256)
     (hob : cfg.balances = true → OracleSound o)
     (hH : ∀ I, H I → (cfg.balances = true → BalHyp I cfg w0) ∧ (cfg.sha3 = true → ShaInterp I p cfg))
-    (hnc : cfg.create = false) (fuel : Nat) : ∀ (steps : Nat) (wl : List CState) (acc : ResultC),
+    (hch : CreateHyp cfg p S w0) (fuel : Nat) : ∀ (steps : Nat) (wl : List CState) (acc : ResultC),
     (∀ cs ∈ wl, GoodC p S w0 cs0 H cs) → (∀ ce ∈ acc.ends, GoodEndC p S w0 cs0 H ce) →
     ∀ ce ∈ (exploreC s o cfg codes fuel steps wl acc).ends, GoodEndC p S w0 cs0 H ce := by
   induction fuel with
@@ -118,7 +118,7 @@ theorem exploreC_sound (hs : SimpSound s) (hmem : cfg.maxMem + 32 ≤ p.memLimit
       rw [exploreC_succ]
       split
       · exact ih _ _ _ (fun x hx => hwl x (List.mem_cons_of_mem _ hx)) hacc
-      · obtain ⟨hn, he⟩ := stepC_good (o := o) hs hmem hdep hcodes hS hcb hob hH hnc (hwl cs (List.mem_cons_self ..))
+      · obtain ⟨hn, he⟩ := stepC_good (o := o) hs hmem hdep hcodes hS hcb hob hH hch (hwl cs (List.mem_cons_self ..))
         refine ih _ _ _ ?_ ?_
         · intro x hx
           rcases List.mem_append.1 hx with hx | hx
@@ -189,7 +189,7 @@ theorem exploreC_complete (hs : SimpSound s) (ho : OracleSound o) (hmem : cfg.ma
     (hS : ∀ a prog, codeOf codes a = some prog → S a)
     (hcb : ∀ a prog, codeOf codes a = some prog → ∀ b ∈ prog, b < 256)
     {I : Interp} (hI : I.Std) (hb : cfg.balances = true → BalHyp I cfg w0)
-    (hsi : cfg.sha3 = true → ShaInterp I p cfg) (hnc : cfg.create = false) {cs0 : CState}
+    (hsi : cfg.sha3 = true → ShaInterp I p cfg) (hch : CreateHyp cfg p S w0) {cs0 : CState}
     (hsok : ∀ cs, VisitedC s o cfg codes cs0 cs → ShaOK I s cfg cs) {r : Evm.World × Evm.Halt} (fuel : Nat) :
     ∀ (steps : Nat) (wl : List CState) (acc : ResultC), (∀ cs ∈ wl, VisitedC s o cfg codes cs0 cs) →
     (∃ cs ∈ wl, Sat I cs.st.path ∧ ∃ w f kcs, RelC I p S w0 cs w f kcs ∧ RunStack p w f kcs r ∧
@@ -216,7 +216,7 @@ theorem exploreC_complete (hs : SimpSound s) (ho : OracleSound o) (hmem : cfg.ma
           · exact hvis x (List.mem_cons_of_mem _ hx)
         rcases List.mem_cons.1 hm with rfl | hm
         · rcases stepC_complete (o := o) hs ho hI hmem hdep hcodes hS hcb hb hsi
-              (hsok _ (hvis _ (List.mem_cons_self ..))) hnc hrel hsat hrun hbb with
+              (hsok _ (hvis _ (List.mem_cons_self ..))) hch hrel hsat hrun hbb with
             ⟨cs', hm', hsat', w', f', kcs', hrel', hrun', hbb'⟩ | ⟨ce, hme, hcov⟩ | hb
           · exact ih _ _ _ hvis' ⟨cs', List.mem_append_left _ (List.mem_reverse.2 hm'), hsat', w', f', kcs', hrel',
               hrun', hbb'⟩
@@ -236,19 +236,26 @@ variable {I : Interp} {p : Evm.Params} {w0 : Evm.World} {env : Env} {codes : Lis
 theorem modelled_of_code {a : Nat} {prog : List Nat} (h : codeOf codes a = some prog) : Modelled codes this a :=
   Or.inr (by rw [h]; rfl)
 
+/-- the modelled accounts of a run: the account under test, the accounts with code and — when CREATE is followed —
+    the addresses the allocator hands out -/
+def ModelledC (cfg : Cfg) (codes : List (Nat × List Nat)) (this : Nat) (a : Nat) : Prop :=
+  Modelled codes this a ∨ (cfg.create = true ∧ ∃ n, a = (cfg.allocBase + n) % 2 ^ 160)
+
 /-- the transaction's first frame, in a world where every modelled account has zero storage -/
-theorem relC_init {f0 : Evm.Frame} (hR0 : R I env ((codeOf codes this).getD []) p initState f0)
+theorem relC_init {S : Nat → Prop} {f0 : Evm.Frame} (hR0 : R I env ((codeOf codes this).getD []) p initState f0)
     (hthis : f0.this = this) (hd0 : f0.depth = 0)
-    (hcb : ∀ a prog, codeOf codes a = some prog → ∀ b ∈ prog, b < 256)
-    (hz : ∀ a, Modelled codes this a → ∀ slot, Evm.lookupD w0.storage (a, slot) = 0 ∧
+    (hcb : ∀ a prog, codeOf codes a = some prog → ∀ b ∈ prog, b < 256) (hS0 : S this)
+    (hz : ∀ a, S a → ∀ slot, Evm.lookupD w0.storage (a, slot) = 0 ∧
       Evm.lookupD w0.transient (a, slot) = 0) :
-    RelC I p (Modelled codes this) w0 (initC env codes this) w0 f0 [] := by
-  refine ⟨hR0, hthis, Or.inl rfl, hd0, ?_, ?_, ChainWF.nil, List.Forall₂.nil⟩
+    RelC I p S w0 (initC env codes this) w0 f0 [] := by
+  refine ⟨hR0, hthis, hS0, hd0, ?_, ?_, ChainWF.nil, CrOK.nil, List.Forall₂.nil⟩
   · show ∀ b ∈ (codeOf codes this).getD [], b < 256
     cases hc : codeOf codes this with
     | none => intro b hb; simp at hb
     | some prog => exact hcb this prog hc
-  · refine (WRelM.init hz).congr (fun a _ => ?_)
+  · show WRelM I S (wd w0 [] 0) w0 _ _ _
+    rw [wd_zero]
+    refine (WRelM.init hz).congr (fun a _ => ?_)
     show (if a = this then ({} : AcctSto) else stoOf [] a) = {}
     by_cases e : a = this
     · rw [if_pos e]
